@@ -311,7 +311,7 @@ impl Prop for C09 {
     fn spaces(&self, tier: Tier) -> Vec<Space> {
         let what = "staging contexts (quote-splice, macro function, code parameters, macro-stage let of code, numeric recursion, lift_f) x generated stage-1 expressions x use sites";
         match tier {
-            Tier::Quick => vec![Space { name: "gen", size: 2500, exhaustive: false, chunk: 100, case_timeout_s: 30.0, what }],
+            Tier::Quick => vec![Space { name: "gen", size: 12000, exhaustive: false, chunk: 100, case_timeout_s: 30.0, what }],
             Tier::Thorough => vec![Space { name: "gen", size: 100_000, exhaustive: false, chunk: 250, case_timeout_s: 30.0, what }],
         }
     }
